@@ -262,7 +262,9 @@ Section Defaults.
     - now apply V.
     - destruct (default_from_expr F g) as [v|y|m] eqn:R; cbn [map_err]; try discriminate. intros [= <-].
       apply oks_with_span; [|exact I]. apply oks_okw. now apply IH.
-    - now apply V.
+    - destruct (is_numeric l); [now apply V|].
+      cbn [map_err]; intros [= <-]; unfold unexpected_expr_type; cbn [einfo]; apply oks_with_span;
+        [apply oks_okw, oks_with_span; [apply unsp_okw, unsp_new|exact I]|exact I].
   Qed.
 
   Lemma in_items_in_list i p ti items s : wfp (NList i p ti items) -> in_items items s -> in_span (i_span i) s.
